@@ -49,6 +49,18 @@ type testCase struct {
 	SettleMs int             `json:"settle_ms"`
 	// [[i, key]]: split at key right before the i-th (1-based) Flush RPC of the case reaches the store
 	RPCSplits [][]interface{} `json:"rpc_splits"`
+	// layout changes while the resolve runs: [[i, "split"|"merge", key]] applied right before the i-th ResolveLock RPC
+	// (merge = the region containing key swallows its right neighbour)
+	ResolveChanges [][]interface{} `json:"resolve_changes"`
+	// Flush RPCs number >= FailFlushFrom (1-based, 0 = never) are answered with an Abort key error (the client "loses" the store)
+	FailFlushFrom int `json:"fail_flush_from"`
+	// the i-th ResolveLock RPC is answered with an empty response body (candidate finding probe, not in default runs)
+	ResolveNilAt int `json:"resolve_nil_at"`
+}
+
+type layoutChange struct {
+	kind string
+	key  []byte
 }
 
 type lockRec struct {
@@ -73,6 +85,11 @@ type shim struct {
 	nFlush   int
 	rpcSplit map[int][]byte
 	bounds   map[string]bool // current split keys (raw)
+	served   [][2]*string    // [start, end) (hex, end nil = unbounded) of every region that answered a ResolveLock, at that moment
+	nResolve int
+	resolveChange map[int][]layoutChange
+	failFlushFrom int
+	resolveNilAt  int
 }
 
 // splitAt splits the region containing key at key (no-op if key is already a region start)
@@ -103,7 +120,11 @@ func (s *shim) SendRequest(ctx context.Context, addr string, req *tikvrpc.Reques
 		if k, ok := s.rpcSplit[s.nFlush]; ok {
 			s.splitAt(k)
 		}
+		lost := s.failFlushFrom > 0 && s.nFlush >= s.failFlushFrom
 		s.mu.Unlock()
+		if lost {
+			return &tikvrpc.Response{Resp: &kvrpcpb.FlushResponse{Errors: []*kvrpcpb.KeyError{{Abort: "injected: store lost"}}}}, nil
+		}
 		nr := *req
 		nr.Type = tikvrpc.CmdPrewrite
 		nr.Req = &kvrpcpb.PrewriteRequest{Mutations: fr.Mutations, PrimaryLock: fr.PrimaryKey, StartVersion: fr.StartTs,
@@ -155,15 +176,40 @@ func (s *shim) SendRequest(ctx context.Context, addr string, req *tikvrpc.Reques
 		}
 		return &tikvrpc.Response{Resp: out}, nil
 	case tikvrpc.CmdResolveLock:
-		resp, err := s.Client.SendRequest(ctx, addr, req, timeout)
-		if err == nil && resp.Resp.(*kvrpcpb.ResolveLockResponse).RegionError == nil && req.Context.GetRegionId() != 0 {
-			for _, r := range s.cluster.GetAllRegions() {
-				if r.Meta.Id == req.Context.GetRegionId() {
-					s.mu.Lock()
-					s.resolves = append(s.resolves, hex.EncodeToString(mocktikvRawStart(r.Meta.StartKey)))
-					s.mu.Unlock()
+		s.mu.Lock()
+		s.nResolve++
+		for _, ch := range s.resolveChange[s.nResolve] {
+			if ch.kind == "split" {
+				s.splitAt(ch.key)
+			} else {
+				s.mergeAt(ch.key)
+			}
+		}
+		nilBody := s.resolveNilAt > 0 && s.nResolve == s.resolveNilAt
+		if nilBody {
+			s.mu.Unlock()
+			return &tikvrpc.Response{}, nil
+		}
+		// layout changes and ResolveLock serving are serialised (s.mu) so that the recorded range is the range of the
+		// region at the moment it answered
+		defer s.mu.Unlock()
+		var st string
+		var en *string
+		found := false
+		for _, r := range s.cluster.GetAllRegions() {
+			if r.Meta.Id == req.Context.GetRegionId() {
+				found = true
+				st = hex.EncodeToString(mocktikvRawStart(r.Meta.StartKey))
+				if len(r.Meta.EndKey) > 0 {
+					e := hex.EncodeToString(mocktikvRawStart(r.Meta.EndKey))
+					en = &e
 				}
 			}
+		}
+		resp, err := s.Client.SendRequest(ctx, addr, req, timeout)
+		if err == nil && found && resp.Resp.(*kvrpcpb.ResolveLockResponse).RegionError == nil {
+			s.resolves = append(s.resolves, st)
+			s.served = append(s.served, [2]*string{&st, en})
 		}
 		return resp, err
 	case tikvrpc.CmdBroadcastTxnStatus:
@@ -177,6 +223,21 @@ func (s *shim) SendRequestAsync(ctx context.Context, addr string, req *tikvrpc.R
 		resp, err := s.SendRequest(ctx, addr, req, time.Minute)
 		cb.Schedule(resp, err)
 	}()
+}
+
+// mergeAt makes the region containing key swallow its right neighbour (no-op for the last region); s.mu held
+func (s *shim) mergeAt(key []byte) {
+	r, _, _, _ := s.cluster.GetRegionByKey(mocktikv.NewMvccKey(key))
+	if r == nil || len(r.EndKey) == 0 {
+		return
+	}
+	for _, n := range s.cluster.GetAllRegions() {
+		if bytes.Equal(n.Meta.StartKey, r.EndKey) {
+			delete(s.bounds, string(mocktikvRawStart(r.EndKey)))
+			s.cluster.Merge(r.Id, n.Meta.Id)
+			return
+		}
+	}
 }
 
 // region start keys of the mock cluster are memcomparable-encoded MVCC keys
@@ -201,6 +262,10 @@ type result struct {
 	CommitTS  uint64            `json:"commit_ts"`
 	Results   []map[string]any  `json:"results"`
 	Regions   []string          `json:"regions"`
+	Served    [][2]*string      `json:"served"`
+	Primary   string            `json:"primary"`
+	TTLEnd    bool              `json:"ttl_running_end"`
+	GCErr     string            `json:"gc_err"`
 	EndErr    string            `json:"end_err"`
 	PStart    string            `json:"pstart"`
 	PEnd      string            `json:"pend"`
@@ -235,6 +300,12 @@ func runCase(tc testCase) (res result) {
 	for _, e := range tc.RPCSplits {
 		sh.rpcSplit[int(e[0].(float64))] = unhex(e[1].(string))
 	}
+	sh.resolveChange = map[int][]layoutChange{}
+	for _, e := range tc.ResolveChanges {
+		i := int(e[0].(float64))
+		sh.resolveChange[i] = append(sh.resolveChange[i], layoutChange{e[1].(string), unhex(e[2].(string))})
+	}
+	sh.failFlushFrom, sh.resolveNilAt = tc.FailFlushFrom, tc.ResolveNilAt
 	store, err := tikv.NewTestTiKVStore(sh, mocktikv.NewPDClient(cluster), nil, nil, 0)
 	if err != nil {
 		panic(err)
@@ -324,6 +395,9 @@ func runCase(tc testCase) (res result) {
 			case "del":
 				touched[op[1].(string)] = true
 				err = txn.Delete(unhex(op[1].(string)))
+			case "insert":
+				touched[op[1].(string)] = true
+				err = txn.GetMemBuffer().SetWithFlags(unhex(op[1].(string)), unhex(op[2].(string)), kv.SetPresumeKeyNotExists)
 			case "get":
 				var e kv.ValueEntry
 				e, err = txn.Get(ctx, unhex(op[1].(string)))
@@ -348,6 +422,22 @@ func runCase(tc testCase) (res result) {
 				if _, err = txn.GetMemBuffer().Flush(true); err == nil {
 					err = txn.GetMemBuffer().FlushWait()
 				}
+				r["ttl_running"] = committer.IsTTLRunning()
+				// every lock the transaction holds must point to its one primary
+				prims := map[string]bool{}
+				if locks, lerr := mvcc.ScanLock(nil, nil, math.MaxUint64); lerr == nil {
+					for _, l := range locks {
+						if l.LockVersion == res.StartTS {
+							prims[hex.EncodeToString(l.PrimaryLock)] = true
+						}
+					}
+				}
+				pl := []string{}
+				for k := range prims {
+					pl = append(pl, k)
+				}
+				sort.Strings(pl)
+				r["lock_primaries"] = pl
 			case "flushnw":
 				_, err = txn.GetMemBuffer().Flush(true)
 			case "split":
@@ -362,17 +452,37 @@ func runCase(tc testCase) (res result) {
 			}
 			res.Results = append(res.Results, r)
 		}
-		if tc.End == "commit" {
+		err = nil
+		switch tc.End {
+		case "commit":
 			err = txn.Commit(ctx)
 			res.CommitTS = committer.GetCommitTS()
-		} else {
+		case "rollback":
 			err = txn.Rollback()
+		case "crash":
+			// the client is gone: no commit, no rollback, no keep-alive; a second client (own store object, plain mock
+			// client) resolves whatever it finds the way GC does (status of the primary decides)
+			txn.GetMemBuffer().FlushWait()
+			committer.CloseTTLManager()
+			store2, err2 := tikv.NewTestTiKVStore(mocktikv.NewRPCClient(cluster, mvcc, nil), mocktikv.NewPDClient(cluster), nil, nil, 0)
+			if err2 != nil {
+				panic(err2)
+			}
+			sp, err2 := store2.CurrentTimestamp("global")
+			if err2 != nil {
+				panic(err2)
+			}
+			if err2 = (tikv.StoreProbe{KVStore: store2}).GCResolveLockPhase(ctx, sp, 2); err2 != nil {
+				res.GCErr = err2.Error()
+			}
 		}
 		if err != nil {
 			res.EndErr = err.Error()
 		}
 		ps, pe := committer.VerifPipelinedBounds()
 		res.PStart, res.PEnd = hex.EncodeToString(ps), hex.EncodeToString(pe)
+		res.Primary = hex.EncodeToString(committer.GetPrimaryKey())
+		res.TTLEnd = committer.IsTTLRunning()
 	}
 	// wait for the background resolve: until no lock of the txn is left or the settle time is over
 	settle := time.Duration(tc.SettleMs) * time.Millisecond
@@ -409,6 +519,7 @@ func runCase(tc testCase) (res result) {
 	sh.mu.Lock()
 	res.Flushes = append(res.Flushes, sh.flushes...)
 	res.Resolves = append(res.Resolves, sh.resolves...)
+	res.Served = append([][2]*string{}, sh.served...)
 	for k := range sh.bounds {
 		res.Regions = append(res.Regions, hex.EncodeToString([]byte(k)))
 	}
